@@ -312,10 +312,27 @@ func (s *rpcServer) serverHandler(blockChan chan int32,
 			// other errors here.
 			if err != nil && err != auctioneer.ErrServerShutdown {
 				rpcLog.Errorf("Error in server stream: %v", err)
-				err := s.auctioneer.HandleServerShutdown(err)
-				if err != nil {
-					rpcLog.Errorf("Error closing stream: "+
-						"%v", err)
+
+				// A failed attempt leaves us without a working
+				// stream and nobody else would try again, so we
+				// re-connect until we succeed or shut down.
+				for err != nil &&
+					err != auctioneer.ErrClientShutdown {
+
+					select {
+					case <-s.quit:
+						return
+					default:
+					}
+
+					err = s.auctioneer.HandleServerShutdown(
+						err,
+					)
+					if err != nil {
+						rpcLog.Errorf("Error re-"+
+							"connecting stream: %v",
+							err)
+					}
 				}
 			}
 
